@@ -18,7 +18,23 @@ pub fn subs() -> Vec<Sub> {
     ]
 }
 
+/// In a strict-parser build only arrays that pass the two strict gates are in the domain of the
+/// conversions (what the gates reject, and with which error, is C15's subject): out-of-domain
+/// arrays are mapped into the domain (checksum byte mod 49 on the 48-bucket variant, length
+/// code mod 170) so that no case is discarded.
+fn into_domain(v: vmodel::Variant, strict: bool, b: &[u8]) -> Vec<u8> {
+    let mut b = b.to_vec();
+    if strict {
+        if v.buckets == 48 {
+            b[0] %= 49;
+        }
+        b[v.ck] %= 170;
+    }
+    b
+}
+
 fn run_binary(ctx: &Ctx) -> CheckResult {
+    let strict = ctx.api.caps().strict;
     let cases = ctx.tier.pick(5_000u32, 100_000);
     for va in ctx.api.variants() {
         let v = va.v();
@@ -27,8 +43,9 @@ fn run_binary(ctx: &Ctx) -> CheckResult {
             &format!("binary/{}", v.name),
             cases,
             gens::hash_bytes_strategy(v),
-            |b: &Vec<u8>| json!({"variant": v.name, "bytes": hex(b)}),
+            |b: &Vec<u8>| json!({"variant": v.name, "bytes": hex(&into_domain(v, strict, b))}),
             |b: &Vec<u8>, st: &CaseStats| {
+                let b = &into_domain(v, strict, b);
                 st.sample(|| json!({"check": "binary", "variant": v.name, "bytes": hex(b)}));
                 case_binary(va, b, st)
             },
@@ -48,6 +65,7 @@ fn run_sweep(ctx: &Ctx) -> CheckResult {
                 for x in 0..=255u8 {
                     let mut b = bg.clone();
                     b[pos] = x;
+                    let b = into_domain(v, ctx.api.caps().strict, &b);
                     if let Err(m) = case_binary(va, &b, &st) {
                         return Err(ctx.violation("binary", m, json!({"variant": v.name, "bytes": hex(&b)})));
                     }
